@@ -38,13 +38,13 @@ BASE = {'A1': 2, 'B1': 3, 'C1': 5, 'D1': 7, 'E1': 11, 'F1': 13,
 VALUATIONS = [
     [],
     [('A1', -4), ('B1', 2.5), ('C1', 7), ('D1', 0.5), ('E1', -3), ('A2', 'zz'), ('B2', 'a'), ('C2', 'm')],
-    [('A1', 6), ('B1', -1.25), ('C1', 0.75), ('D1', 9), ('E1', 2), ('A2', 'q'), ('B2', 'q'), ('D2', 'bb')],
+    [('A1', 6), ('B1', -1.25), ('C1', 0.75), ('D1', 9), ('E1', 2), ('A2', 'q'), ('B2', 'Q'), ('D2', 'BB'), ('C2', 'Ccc')],
     [('A1', 100), ('B1', 7), ('C1', -2), ('D1', 3), ('E1', 0.1), ('A2', 'bb'), ('C2', 'a'), ('E2', 'a')],
     # magnitudes far from 1: "15 significant digits" is not "15 decimal places"
     [('A1', 1.23456789e-10), ('B1', 7e-14), ('C1', 2.5e15), ('D1', -3.3e-7), ('E1', 4.1e-9), ('A2', 'q'), ('B2', 'r')],
 ]
 NLITS = ['4', '9', '2.5', '0.5', '10']
-TLITS = ['"x"', '"yy"', '"a"', '"a  b"', '"p\tq"', '" lead"', '"trail  "', '"l1\nl2"', '"a b"']
+TLITS = ['"x"', '"yy"', '"a"', '"a  b"', '"p\tq"', '" lead"', '"trail  "', '"l1\nl2"', '"a b"', '"A"', '"YY"', '"X"']
 
 
 def atoms_for(kinds, variant):
@@ -221,7 +221,7 @@ SPECIAL = ['=A1%%', '=5%%', '=A1%%+B1', '=(A1)%%', '=-A1%', '=-A1%*-B1%', '=-(A1
            '=A1*B1&C1/A1', '=A1<>B1&C1', '=A1-B1-C1-D1-E1', '=A1/B1/C1/D1', '=A1-B1+C1-D1+E1', '=A1/B1*C1/D1*E1',
            '=A1+B1*C1-D1/E1', '=A1*B1+C1*D1', '=A1+G1', '=G1+G1', '=G1*A1', '=G1-A1', '=-G1', '=G1%', '=A1/G1', '=G1=0',
            '=2.5+A1', '=0.5*4', '=10/4', '=TRUE+1', '=TRUE*FALSE', '=TRUE()+A1', '=FALSE()=FALSE', '="a"="a"', '="a"<>"b"',
-           '="x"&"yy"&"a"', '="a"<"b"', '="a  b"&"c"', '="x  y"="x y"', '="x  y"<>"x y"', '="t\tu"&1', '="l1\nl2"&A2', '=A2&"  "&B2', '="  "&A1&"  "', '=" a"=" a"', '="a  "="a "', '=A2&B2<C2&D2', '= A1 + B1', '=A1 +B1* C1', '=( A1+B1 )*C1', '=A1+\tB1']
+           '="x"&"yy"&"a"', '="a"<"b"', '="a"="A"', '="a"<>"A"', '="Abc"="aBC"', '="a"<="A"', '="a">="A"', '="a"<"A"', '=A2="A"', '=A2&"x"="AX"', '="b"=B2&""', '="a  b"&"c"', '="x  y"="x y"', '="x  y"<>"x y"', '="t\tu"&1', '="l1\nl2"&A2', '=A2&"  "&B2', '="  "&A1&"  "', '=" a"=" a"', '="a  "="a "', '=A2&B2<C2&D2', '= A1 + B1', '=A1 +B1* C1', '=( A1+B1 )*C1', '=A1+\tB1']
 
 
 def classify(f, out):
